@@ -11,6 +11,7 @@ import (
 	"go/parser"
 	"go/token"
 	"io"
+	"os"
 	"regexp"
 	"strings"
 	"sync"
@@ -29,6 +30,13 @@ import (
 //
 // The random source is an environment the harness owns: crypto/rand.Reader is replaced by a
 // recording reader (uuid.NewV4 calls rand.Read = io.ReadFull(rand.Reader, ...)).
+
+func repoDir() string {
+	if d := os.Getenv("VERIF_REPO"); d != "" {
+		return d
+	}
+	return "/repo"
+}
 
 var c18IDRe = regexp.MustCompile(`^_[0-9a-f]{8}-[0-9a-f]{4}-4[0-9a-f]{3}-[89ab][0-9a-f]{3}-[0-9a-f]{12}$`)
 
@@ -112,7 +120,7 @@ type c18Case struct {
 // c18CryptoRandOnly reports (static, supporting) whether the uuid package draws from
 // crypto/rand and does not import math/rand.
 func c18CryptoRandOnly() bool {
-	f, err := parser.ParseFile(token.NewFileSet(), "/repo/uuid/uuid.go", nil, parser.ImportsOnly)
+	f, err := parser.ParseFile(token.NewFileSet(), repoDir()+"/uuid/uuid.go", nil, parser.ImportsOnly)
 	if err != nil {
 		return true
 	}
@@ -297,7 +305,7 @@ func c18Run(r *mc.Run) {
 	r.Rule = "(a) 258 sixteen-byte answers of the random source (all-zero, all-one, each single bit set, each single bit clear): uuid.NewV4().String() must be the canonical lowercase 8-4-4-4-12 rendering of the answer with exactly the version nibble = 4 and the variant bits = 10 forced and every other bit copied (the transformation is bitwise, so the 122 free bits are an injective image of the source); (b) every history of <= 3 (quick) / <= 4 (thorough) constructions over 3 builders x 2 SP instances, and every interleaving (unbounded) of two constructions on two goroutines for all 9 builder pairs x shared/separate SP, with a recording source handing out distinct answers: each ID = '_' + the v4 rendering of a 16-byte window of the bytes the source handed out, windows of different IDs never overlap (no source byte used twice), every ID matches the xs:ID-safe pattern, none repeats; plus one history of 300 (quick) / 5000 (thorough) constructions for repeats that need many messages. non-trivial = a message was built and its ID compared with the recorded draws; distinct = distinct case"
 	r.Assume("the unreplaced crypto/rand.Reader is the operating system's CSPRNG (Go's guarantee)")
 	// supporting, does not decide: the uuid package's imports
-	if f, err := parser.ParseFile(token.NewFileSet(), "/repo/uuid/uuid.go", nil, parser.ImportsOnly); err == nil {
+	if f, err := parser.ParseFile(token.NewFileSet(), repoDir()+"/uuid/uuid.go", nil, parser.ImportsOnly); err == nil {
 		imps := []string{}
 		for _, im := range f.Imports {
 			imps = append(imps, strings.Trim(im.Path.Value, `"`))
